@@ -414,10 +414,7 @@ def WF (g : PkgG) : Bool := (firstFail g).isNone
 inductive Out (α : Type) where
   | ok (a : α)
   | panic
-deriving Repr
-
-instance {α} [DecidableEq α] : DecidableEq (Out α) := fun a b => by
-  cases a <;> cases b <;> simp <;> exact inferInstance
+deriving DecidableEq, Repr
 
 def Out.bind {α β} (x : Out α) (f : α → Out β) : Out β :=
   match x with
@@ -665,11 +662,12 @@ def trimCell (row : Row) : Row :=
 this tree `i++` is executed for *every* row, so a row that trims to nothing
 and has no attributes is kept untrimmed (all its cells are value-less) rather
 than dropped; with the counter inside the `if` such rows are dropped. -/
-def trimRowWith (keepEmpty : Bool) (rows : List Row) : List Row :=
-  rows.filterMap fun row =>
-    let t := trimCell row
-    if t.cells.length != 0 || t.hasAttr then some t
-    else if keepEmpty then some row else none
+def trimOne (keepEmpty : Bool) (row : Row) : Option Row :=
+  let t := trimCell row
+  if t.cells.length != 0 || t.hasAttr then some t
+  else if keepEmpty then some row else none
+
+def trimRowWith (keepEmpty : Bool) (rows : List Row) : List Row := rows.filterMap (trimOne keepEmpty)
 
 def trimRow (rows : List Row) : List Row := trimRowWith Facts.C05.trimRowKeepsEmptyRows rows
 
